@@ -36,6 +36,9 @@ def cases(seed, tier):
                     "features": (i % 6 == 5) or (i % 7 == 3), "max_size": 5 if tier == "quick" else 9})
     # overlapping embeddings: a valid connected triangulation whose geometry is folded flat, so that adjacent triangles coincide (equal barycentres,
     # exact ties in every geometric heuristic of the cutter)
+    # closed surface with sharp creases forming closed loops (cube): the feature-constrained cutter, twice on the same mesh object
+    for i in range(max(6, n // 10)):
+        out.append({"gen": "cube_features", "seed": rng.randrange(2 ** 31), "singu": ["far", "many", "adjacent", "face", "many"][i % 5], "features": True, "max_size": 5})
     for i in range(n // 6):
         out.append({"gen": "folded", "seed": rng.randrange(2 ** 31), "singu": ["empty", "one", "far", "many", "border", "adjacent"][i % 6], "features": False,
                     "shape": ["sheet_diagonal", "flattened_sphere", "sheet_diagonal", "flattened_torus"][i % 4], "max_size": 5})
@@ -124,6 +127,24 @@ def run_case(desc, ctx):
         singus = _pick_singularities(rng, kind, ref, len(V), F)
         use_features = True
         cls = "hinge"
+    elif desc["gen"] == "cube_features":
+        V, Fq, _ = surfaces.cube_surface()
+        F = []
+        for q in Fq:
+            F += [[q[0], q[1], q[2]], [q[0], q[2], q[3]]]
+        V = np.asarray(V, float)
+        for _ in range(rng.choice([1, 2])):
+            V, F = surfaces.refine_midpoint(V, F, project=False)
+        V = np.asarray(V, float) * np.array([1.0, 1.3, 0.8])
+        F = [list(f) for f in F]
+        a = topo.analyse(len(V), F)
+        ref = RefSurface(len(V), F)
+        kind = desc["singu"]
+        singus = _pick_singularities(rng, kind, ref, len(V), F)
+        if len(set(singus)) < 2:
+            singus = list(singus) + [(singus[0] + 7) % len(V)]
+        use_features = True
+        cls = "cube"
     elif desc["gen"] == "folded":
         V, F, cls = _folded(rng, desc["shape"])
         a = topo.analyse(len(V), F)
@@ -153,7 +174,10 @@ def run_case(desc, ctx):
     if use_features:
         ok, feat = ctx.call("FeatureEdgeDetector", lambda: M.processing.FeatureEdgeDetector(verbose=False), monitor="faces")
         ctx.call("detect", feat.detect, m, monitor="faces")
-    sing_arg = list(singus) if rng.random() < 0.7 else set(singus)
+    form = rng.choice(["list", "list", "set", "tuple", "ndarray", "generator", "iterator"])
+    ctx.cls("singularities_given_as:" + form)
+    sing_arg = {"list": lambda: list(singus), "set": lambda: set(singus), "tuple": lambda: tuple(singus), "ndarray": lambda: np.array(singus, dtype=np.int64),
+                "generator": lambda: (x for x in list(singus)), "iterator": lambda: iter(list(singus))}[form]()
     ok, cutter = ctx.call("SingularityCutter", lambda: M.processing.SingularityCutter(m, sing_arg, features=feat, verbose=False), monitor="faces")
     ok, _ = ctx.call("run", cutter.run, monitor="faces")
     ok, out = ctx.call("output_mesh", lambda: cutter.output_mesh, monitor="faces")
@@ -262,3 +286,20 @@ def run_case(desc, ctx):
             return
     if len(F) <= 8:
         ctx.sample({"faces": F, "singularities": singus, "cut_edges": sorted(edges[e] for e in cut_edges), "cut_mesh_faces": Fo})
+    # history: a second cut of the SAME mesh object (same feature detector) with another singularity set must again give a disk
+    if desc["gen"] == "cube_features" and not desc.get("_second"):
+        s2 = _pick_singularities(rng, "many", ref, len(V), F)
+        if len(set(s2)) >= 2 and set(s2) != set(singus):
+            ok, cutter2 = ctx.call("SingularityCutter_second_on_same_mesh", lambda: M.processing.SingularityCutter(m, list(dict.fromkeys(s2)), features=feat, verbose=False), monitor="faces")
+            ok, _ = ctx.call("run_second_on_same_mesh", cutter2.run, monitor="faces")
+            ok, out2 = ctx.call("output_mesh_second", lambda: cutter2.output_mesh, monitor="faces")
+            ctx.obs("disk", "second_cut_same_mesh")
+            try:
+                Fo2 = build.faces_list(out2)
+                ao2 = topo.analyse(len(out2.vertices), Fo2)
+                good = len(Fo2) == len(F) and ao2["manifold"] and ao2["n_components"] == 1 and len(ao2["border_loops"]) == 1 and ao2["chi"] == 1
+            except Exception:
+                good, ao2 = False, {}
+            if not good:
+                ctx.violation("disk", "topology", "second_cut_of_same_mesh_is_not_a_disk", "a second feature-constrained cut of the same mesh object (other singularities) is not a disk",
+                              chi=ao2.get("chi"), components=ao2.get("n_components"), loops=len(ao2.get("border_loops", [])))
